@@ -233,7 +233,7 @@ func vfC03Same(a, b vfC03Q) bool {
 	return vfFoldASCII(a.Name) == vfFoldASCII(b.Name) && a.Qtype == b.Qtype && a.Qclass == b.Qclass && a.CD == b.CD && a.upstreamECS() == b.upstreamECS()
 }
 
-var vfC03Labels = []string{"www", "a", "ab", "b", "c", "bc", "x[y", "x{y", "p\\\\q", "p|q", "n^", "n~", "at@", "at`", "d0", "d\\016", "sp\\032", "sp\\000", "u_v", "u\\255v", "UP", "up", "\\.dot", "dot"}
+var vfC03Labels = []string{"www", "ks", "task", "a", "ab", "b", "c", "bc", "x[y", "x{y", "p\\\\q", "p|q", "n^", "n~", "at@", "at`", "d0", "d\\016", "sp\\032", "sp\\000", "u_v", "u\\255v", "UP", "up", "\\.dot", "dot"}
 
 func vfC03Name(t *rapid.T, label string) string {
 	n := rapid.IntRange(1, 3).Draw(t, label+".n")
@@ -261,7 +261,7 @@ func vfC03Normal(name string) string {
 // vfC03NearMiss derives a question differing from q in exactly one dimension.
 func vfC03NearMiss(t *rapid.T, q vfC03Q) (vfC03Q, string) {
 	o := q
-	dim := rapid.SampledFrom([]string{"case", "bit20", "boundary", "octet", "qtype", "qclass", "cd", "scope", "name"}).Draw(t, "dim")
+	dim := rapid.SampledFrom([]string{"case", "bit20", "boundary", "octet", "qtype", "qclass", "cd", "scope", "name", "unicode-fold"}).Draw(t, "dim")
 	switch dim {
 	case "case":
 		o.Name = strings.ToUpper(q.Name)
@@ -299,6 +299,12 @@ func vfC03NearMiss(t *rapid.T, q vfC03Q) (vfC03Q, string) {
 		o.Name = vfC03Normal("z" + q.Name[1:])
 		if o.Name == q.Name {
 			o.Name = vfC03Normal("y" + q.Name[1:])
+		}
+	case "unicode-fold": // U+212A KELVIN SIGN folds to k, U+017F LONG S to s - under Unicode folding, not in the DNS
+		r := strings.NewReplacer("k", "\u212a", "K", "\u212a", "s", "\u017f", "S", "\u017f")
+		o.Name = vfC03Normal(r.Replace(q.Name))
+		if o.Name == q.Name {
+			o.Name = vfC03Normal("\u212a" + q.Name)
 		}
 	case "qtype":
 		o.Qtype = rapid.SampledFrom([]uint16{dns.TypeA, dns.TypeAAAA, dns.TypeTXT, dns.TypeMX}).Draw(t, "otype")
@@ -374,7 +380,7 @@ func vfC03Run(t *testing.T, dir string, c *vfC03Case) (violation string, notes [
 		same := vfC03Same(c.Q1, c.Q2)
 		// 2. the state a 64-bit key collision between Q1 and Q2 produces
 		planted := false
-		if !same {
+		if !same && c.Dim != "unicode-fold" { // (that dimension is about the purge sweep, which a shared key would short-cut)
 			planted = st.VerifPlantCollision(dns.Question{Name: c.Q1.Name, Qtype: c.Q1.Qtype, Qclass: c.Q1.Qclass}, c.Q1.CD, c.Q1.scope(),
 				dns.Question{Name: c.Q2.Name, Qtype: c.Q2.Qtype, Qclass: c.Q2.Qclass}, c.Q2.CD, c.Q2.scope())
 			if !planted && c.Q1.scope().IsValid() {
@@ -432,7 +438,7 @@ func vfC03Run(t *testing.T, dir string, c *vfC03Case) (violation string, notes [
 					judge(route, m, 0)
 				}
 			case "chase":
-				if c.Q2.Qtype != dns.TypeA || c.Q2.Qclass != dns.ClassINET || c.Q2.ECS != "" {
+				if c.Q2.Qtype != dns.TypeA || c.Q2.ECS != "" {
 					continue
 				}
 				a := c.Q2
@@ -517,6 +523,21 @@ func vfC03Run(t *testing.T, dir string, c *vfC03Case) (violation string, notes [
 				judge("purge+decoded", m, n)
 				if same && n == 0 && c.Q2.ECS == "" {
 					fail("purge of %v left an entry that still answers it", c.Q2)
+				}
+				if c.Dim == "unicode-fold" {
+					// the purge API takes a presentation string: the same name spelled with U+212A / U+017F as it would arrive
+					// there (UTF-8), which names other octets than k / s
+					raw := strings.NewReplacer("k", "\u212a", "K", "\u212a", "s", "\u017f", "S", "\u017f").Replace(c.Q1.Name)
+					if raw != c.Q1.Name {
+						cc.Purge(dns.Question{Name: raw, Qtype: c.Q1.Qtype, Qclass: c.Q1.Qclass})
+						notes = append(notes, "unicode-spelled-purge")
+					}
+				}
+				if !same && !planted && vfFoldASCII(c.Q1.Name) != vfFoldASCII(c.Q2.Name) {
+					// another name was purged: Q1's own entry is still there
+					if m1, n1 := ask(c.Q1, false, 16); m1 != nil && n1 != 0 {
+						fail("purging %v removed the entry of the different question %v (it went upstream again)", c.Q2, c.Q1)
+					}
 				}
 			}
 		}
